@@ -78,8 +78,8 @@ class MetaString(type):
             data += b"\x00" * off
             # log.debug(f"to_buffer {offset+8} {len(data)} {string_capacity}")
             buffer.update_from_buffer(offset + 8, data)
-        elif is_integer(value):
-            pass
+        elif is_integer(value):  # empty string of given capacity
+            buffer.update_from_buffer(offset + 8, b"\x00" * string_capacity)
         else:
             raise ValueError(f"{value} not a string")
 
